@@ -64,3 +64,23 @@ Theorem C10_maximum_read_length_from_source : forall n, 0 <= n < 2 ^ 64 ->
   maximum_read_length n = src_maximum_read_length n.
 Proof. exact maximum_read_length_from_source. Qed.
 Print Assumptions C10_maximum_read_length_from_source.
+
+(* the write side: WriteMem::chunks, the field-mutating iterator WriteMemChunks::next (slices abstracted to index ranges
+   of the data, `WriteMem::new(..).unwrap()`, usize additions that can overflow) and WriteMem::new / into_scd_len, as
+   translated from the source, are the model's functions - for every data list, address, index within the data and
+   budget (sizes below 2^64) *)
+Theorem C10_write_init_from_source : forall a d cmd_len,
+  write_chunks_init a d cmd_len = omap (wstate_of d) (src_write_chunks_init a cmd_len).
+Proof. exact write_init_from_source. Qed.
+Print Assumptions C10_write_init_from_source.
+
+Theorem C10_write_next_from_source : forall a (d : list Z) i m,
+  0 <= a < 2 ^ 64 -> 0 <= i <= zlen d -> 0 <= m -> zlen d + m + 8 < 2 ^ 64 ->
+  write_next {| w_addr := a; w_data := d; w_idx := i; w_max := m |} = omap (wnext_of d) (src_write_next (zlen d) a i m).
+Proof. exact write_next_from_source. Qed.
+Print Assumptions C10_write_next_from_source.
+
+Theorem C10_write_mem_new_from_source : forall a (data : list Z), zlen data + 8 < 2 ^ 64 ->
+  unwrap (write_mem_new a data) = omap (fun _ => (a, data)) (r_unwrap (src_write_mem_new (zlen data))).
+Proof. exact write_mem_new_from_source. Qed.
+Print Assumptions C10_write_mem_new_from_source.
